@@ -513,7 +513,28 @@ struct channel_multiplier_unsigned {
     using result_type = ChannelValue;
     auto operator()(ChannelValue a, ChannelValue b) const -> ChannelValue
     {
-        return ChannelValue(static_cast<typename base_channel_type<ChannelValue>::type>(a / double(channel_traits<ChannelValue>::max_value()) * b));
+        using base_t = typename base_channel_type<ChannelValue>::type;
+        return apply(a, b, std::integral_constant<bool,
+            std::is_integral<base_t>::value && sizeof(base_t) * 2 <= sizeof(std::uintmax_t)>());
+    }
+
+private:
+    // Integral channels (including packed_channel_value) whose product fits in uintmax_t:
+    // exact integer a * b / max, which is commutative. The floating-point form below is not:
+    // a / max is rounded before it is multiplied, so e.g. for 8-bit packed channels
+    // 51 * 155 gave 31 but 155 * 51 gave 30.
+    static auto apply(ChannelValue a, ChannelValue b, std::true_type) -> ChannelValue
+    {
+        using base_t = typename base_channel_type<ChannelValue>::type;
+        std::uintmax_t const max = static_cast<base_t>(channel_traits<ChannelValue>::max_value());
+        std::uintmax_t const product = static_cast<std::uintmax_t>(static_cast<base_t>(a)) * static_cast<base_t>(b);
+        return ChannelValue(static_cast<base_t>(product / max));
+    }
+
+    static auto apply(ChannelValue a, ChannelValue b, std::false_type) -> ChannelValue
+    {
+        using base_t = typename base_channel_type<ChannelValue>::type;
+        return ChannelValue(static_cast<base_t>(a / double(channel_traits<ChannelValue>::max_value()) * b));
     }
 };
 
